@@ -55,6 +55,22 @@ def run(ctx):
   steps_family(ctx)
   retained_side(ctx)
   melody_range(ctx)
+  pitfall_sites(ctx)
+
+
+def pitfall_sites(ctx):
+  """Every method of every event-sequence class (the family, LeadSheet, PianorollSequence, the performance classes):
+  slices counted from the end and "previous element" indexes must not reach their wrap-around value."""
+  from sa import pitfalls
+  scope = []
+  for rel in (EL, ML, CL, DL, LS, PL, PR):
+    mi = ctx.P.module(rel[len('note_seq/'):-3])
+    for q, fi in sorted(mi.all_functions.items()):
+      if fi.cls is not None and '.' in q:
+        scope.append(fi)
+  pitfalls.apply(ctx, 'PITFALL', scope, ['neg-zero-slice', 'previous-wraps'], {
+      'neg-zero-slice': 'the events that remain are not the prefix / suffix the list model keeps, so len, end_step and indexing disagree with it',
+      'previous-wraps': 'the first event is paired with the last one'})
 
 
 def _method_closure(ctx, ci, m, depth=3):
